@@ -194,7 +194,8 @@ def conv_config(name, did, ops):
 def violation_key(name, did, ops, clause):
     if clause.startswith('converted') and any(o[0] == 'conv' for o in ops):
         return '%s/get_converted_psd/%s' % (clause, conv_config(name, did, ops))
-    return '%s/%s/%s-%s' % (clause, signature(ops), R.base_of(name), 'real' if did.startswith('r') else 'complex')
+    attrs = sorted(set((o[1] if o[0] == 'set' else 'reassign-' + o[1]) for o in ops if o[0] in ('set', 'reassign')))
+    return '%s/%s/%s-%s' % (clause, '+'.join(attrs) or 'no-assignment', R.base_of(name), 'real' if did.startswith('r') else 'complex')
 
 
 def jsonable_ops(ops):
@@ -367,7 +368,17 @@ def run(ctx):
     def order(k):
         c = found[k][5]
         return (STALE_FIRST.index(c) if c in STALE_FIRST else 99, found[k][0], k)
-    for k in sorted(found, key=order):
+    # keep the minimal witnesses: a key whose set of assigned attributes strictly contains that of another failing key of
+    # the same clause and configuration adds nothing
+    def parts(k):
+        c, a, cfg = k.split('/')
+        return c, frozenset(a.split('+')), cfg
+    keys = list(found)
+    minimal = [k for k in keys if k.split('/')[1] in ('get_converted_psd',) or not any(
+        parts(j)[0] == parts(k)[0] and parts(j)[2] == parts(k)[2] and parts(j)[1] < parts(k)[1] for j in keys
+        if j.split('/')[1] != 'get_converted_psd')]
+    ctx.extra['failing_history_keys'] = {'all': len(keys), 'minimal': len(minimal)}
+    for k in sorted(minimal, key=order):
         n, name, did, ops, what, clause = found[k]
         msg = '%s(%s data): after %s: %s' % (name, 'real' if did.startswith('r') else 'complex', signature(ops) or 'construction', what)
         print('C07 failing-history key=%s :: %s' % (k, msg))
